@@ -37,6 +37,11 @@ from . import policy
 from .core import STALL
 
 VERIF = os.path.dirname(os.path.dirname(os.path.abspath(__file__)))
+# Where replay files and evidence go.  The registered commands leave this
+# unset (-> /verif); tools/run_seeded.py --scratch points it at a scratch
+# directory so that trial runs against patched copies never touch the
+# committed evidence.
+OUT = os.environ.get('VERIF_OUT') or VERIF
 KNOWN_FILE = os.path.join(VERIF, 'known_findings.json')
 
 
@@ -275,9 +280,9 @@ def minimise(check, scenario, deviations, sig, budget_s=40.0, seed_base=1):
 
 def write_replay(check, sig, msg, seed, scenario, deviations, digest, info,
                  tag=None):
-    os.makedirs(os.path.join(VERIF, 'replay'), exist_ok=True)
+    os.makedirs(os.path.join(OUT, 'replay'), exist_ok=True)
     name = '{}-{}.json'.format(check.PROP, tag if tag is not None else seed)
-    path = os.path.join(VERIF, 'replay', name)
+    path = os.path.join(OUT, 'replay', name)
     with open(path, 'w') as f:
         json.dump({'property': check.PROP, 'seed': seed, 'violation': sig,
                    'message': msg, 'scenario': scenario,
@@ -319,8 +324,8 @@ def fresh_replay(check, path):
 
 # ---------------------------------------------------------------------------
 def write_evidence(check, tier, seed, agg, n_viol, extra_cov=None):
-    os.makedirs(os.path.join(VERIF, 'evidence'), exist_ok=True)
-    path = os.path.join(VERIF, 'evidence', check.PROP + '.json')
+    os.makedirs(os.path.join(OUT, 'evidence'), exist_ok=True)
+    path = os.path.join(OUT, 'evidence', check.PROP + '.json')
     elapsed = max(agg.get('elapsed', 0.0), 1e-6)
     probes = dict(sorted(agg['probes'].items()))
     declared = getattr(check, 'PROBES', [])
